@@ -1657,3 +1657,36 @@ VARIANTS['C04'] += [
         "            if encoding is None and isinstance(data, str) and (len(data) % 2) == 0 and data[:2] == '0x':\n")],
       None),
 ]
+
+_AUX_CALL = "                s = CencSampleAuxiliaryData.parse(\n                    src, size, rv[\"iv_size\"], rv[\"flags\"], rv)\n"
+VARIANTS['C03'] += [
+    V('senc entry offsets measured from the enclosing traf instead of the senc box',
+      [(MP4, _AUX_CALL, "                s = CencSampleAuxiliaryData.parse(\n                    src, size, rv[\"iv_size\"], rv[\"flags\"], parent)\n")],
+      'R03.10', 'CencSampleEncryptionBox'),
+    V('senc entry offset taken after the initialization vector was read',
+      [(MP4, "            \"offset\": src.tell() - parent['position'],\n            \"size\": size,\n", "            \"size\": size,\n"),
+       (MP4, "        r.read(iv_size, \"initialization_vector\", encoder=HexBinary)\n        rv[\"subsamples\"] = []\n",
+        "        r.read(iv_size, \"initialization_vector\", encoder=HexBinary)\n        rv[\"offset\"] = src.tell() - parent['position']\n        rv[\"subsamples\"] = []\n")],
+      'R03.10', 'CencSampleAuxiliaryData'),
+    V('senc entry offsets computed from the header size, override block forgotten',
+      [(MP4, "    def parse(clz, src, size, iv_size, flags, parent):\n", "    def parse(clz, src, size, iv_size, flags, offset):\n"),
+       (MP4, "            \"offset\": src.tell() - parent['position'],\n", "            \"offset\": offset,\n"),
+       (MP4, "        for i in range(num_entries):\n            if saiz.sample_info_sizes:\n",
+        "        offset = rv[\"header_size\"] + 8\n        for i in range(num_entries):\n            if saiz.sample_info_sizes:\n"),
+       (MP4, _AUX_CALL + "                rv[\"samples\"].append(s)\n",
+        "                s = CencSampleAuxiliaryData.parse(\n                    src, size, rv[\"iv_size\"], rv[\"flags\"], offset)\n                rv[\"samples\"].append(s)\n                offset += size\n")],
+      'R03.10', 'CencSampleEncryptionBox'),
+    V('neutral: senc entry offset measured by the box parser and handed in',
+      [(MP4, "    def parse(clz, src, size, iv_size, flags, parent):\n", "    def parse(clz, src, size, iv_size, flags, offset):\n"),
+       (MP4, "            \"offset\": src.tell() - parent['position'],\n", "            \"offset\": offset,\n"),
+       (MP4, _AUX_CALL, "                s = CencSampleAuxiliaryData.parse(\n                    src, size, rv[\"iv_size\"], rv[\"flags\"],\n                    src.tell() - rv['position'])\n")],
+      None),
+    V('neutral: senc entry offsets computed, override block accounted for',
+      [(MP4, "    def parse(clz, src, size, iv_size, flags, parent):\n", "    def parse(clz, src, size, iv_size, flags, offset):\n"),
+       (MP4, "            \"offset\": src.tell() - parent['position'],\n", "            \"offset\": offset,\n"),
+       (MP4, "        if rv[\"flags\"] & 0x01:\n            r.read('3I', 'algorithm_id')\n",
+        "        offset = rv[\"header_size\"] + 8\n        if rv[\"flags\"] & 0x01:\n            offset += 20\n            r.read('3I', 'algorithm_id')\n"),
+       (MP4, _AUX_CALL + "                rv[\"samples\"].append(s)\n",
+        "                s = CencSampleAuxiliaryData.parse(\n                    src, size, rv[\"iv_size\"], rv[\"flags\"], offset)\n                rv[\"samples\"].append(s)\n                offset += size\n")],
+      None),
+]
